@@ -9,7 +9,8 @@ from genlm.grammar.wfsa.base import WFSA as BaseWFSA, EPSILON
 from genlm.grammar.wfsa.field_wfsa import WFSA as FieldWFSA
 from genlm.grammar.fst import FST
 
-STATE_STYLES = ("int", "str", "tuple", "mixed")
+STATE_STYLES = ("int", "str", "tuple", "mixed", "pair1", "pair0")
+WFSA_PRE = ("epsremove", "call", "total_weight", "trim", "reverse", "renumber", "E", "G", "forward", "backward")
 
 
 def st_name(style, k):
@@ -19,6 +20,10 @@ def st_name(style, k):
         return f"q{k}"
     if style == "tuple":
         return ("s", k)
+    if style == "pair1":
+        return (1, k)          # looks like the tags a disjoint-union construction would add
+    if style == "pair0":
+        return (0, k)
     return [k, f"q{k}", ("s", k), frozenset([k])][k % 4]
 
 
@@ -33,6 +38,18 @@ def build_wfsa(M, srname, style="int", cls="base"):
         m.add_F(st_name(style, q), dec_w(R, w))
     for p, a, q, w in M["arcs"]:
         m.add_arc(st_name(style, p), unt(a), st_name(style, q), dec_w(R, w))
+    return m
+
+
+def warm_wfsa(m, pre):
+    """Earlier queries on the SAME automaton object (cached properties): they must not change later answers."""
+    for name in pre or ():
+        if name == "call":
+            m(())
+        elif name == "total_weight":
+            m.total_weight()
+        else:
+            getattr(m, name)
     return m
 
 
@@ -94,13 +111,13 @@ def fst_proj(m):
 
 
 def f_wcall(a):
-    m = build_wfsa(a["M"], a["sr"], a.get("style", "int"), a.get("cls", "base"))
+    m = warm_wfsa(build_wfsa(a["M"], a["sr"], a.get("style", "int"), a.get("cls", "base")), a.get("pre"))
     v = m(ustr(a["s"]))
     return {"op": "wcall", "sr": srmodel(a["sr"]), "M": a["M"], "s": a["s"], "res": enc_w(m.R, coerce(m.R, v))}
 
 
 def f_wtotal(a):
-    m = build_wfsa(a["M"], a["sr"], a.get("style", "int"), a.get("cls", "base"))
+    m = warm_wfsa(build_wfsa(a["M"], a["sr"], a.get("style", "int"), a.get("cls", "base")), a.get("pre"))
     v = m.total_weight()
     return {"op": "wtotal", "sr": srmodel(a["sr"]), "M": a["M"], "res": enc_w(m.R, coerce(m.R, v))}
 
@@ -125,7 +142,7 @@ BINARY = {"add": lambda x, y: x + y, "mul": lambda x, y: x * y}
 
 
 def f_wop(a):
-    m = build_wfsa(a["A"], a["sr"], a.get("style", "int"), a.get("cls", "base"))
+    m = warm_wfsa(build_wfsa(a["A"], a["sr"], a.get("style", "int"), a.get("cls", "base")), a.get("pre"))
     name = a["fn"]
     e = {"op": "wop", "sr": srmodel(a["sr"]), "A": a["A"], "sigma": a["sigma"], "L": a["L"]}
     if name in UNARY:
